@@ -383,6 +383,10 @@ Lemma good_X_trapped_addr A k : good (fun s' => @X A k (set_trapped_addr s' (pre
 Proof. split; [intros s h r; destruct s; reflexivity | intros s; destruct s; apply ext_refl]. Qed.
 #[export] Hint Resolve good_X_trapped_addr : good.
 
+Lemma good_exp_tail a b : good (exp_tail a b).
+Proof. unfold exp_tail, exp_tail_ref. good_tac. Qed.
+#[export] Hint Resolve good_exp_tail : good.
+
 (* every instruction except halt commutes with overwriting halted/reason *)
 Lemma good_exec m i : i <> IHalt -> good (exec m i).
 Proof.
